@@ -18,7 +18,9 @@ META = dict(
          "inactive TWA records) on a fresh fixture and on seeded non-fresh states in which the same message succeeds with the controls off, executes the "
          "message / hook and records result, store digest and seizure / auction counts; TLC evaluates C14_Breaker, C14_Shutdown, C14_CoolOff, "
          "C14_PriceMissing, C14_FailsClosed, C14_HookBreaker, C14_HookPriceMissing, C14_AuctionPriceMissing (record of a live Dutch auction unchanged by the per-block update / restart step when a needed price is off; both generations, vault and lend auctions) on every cell and Conf_Ctl / Conf_Hook (outcome = coded guard sequence).",
-    note="Breaker expectations beyond the statement's wording (lend withdraw/close/repay/close-borrow) follow the anchors' guard list; locker withdraw/close and "
+    note="Round 4: a second vault app (twin) sits in the same sweep loops as harbor: with the breaker on one of them the hook must leave THAT app's positions "
+         "alone (identity by the vault product's app, not by the tag of the locked vault) while the other app's positions are processed; the borrow rows also run on a "
+         "cross-pool position (collateral not a transit asset) with each of its four price roles switched off separately. Breaker expectations beyond the statement's wording (lend withdraw/close/repay/close-borrow) follow the anchors' guard list; locker withdraw/close and "
          "everything the statement does not constrain is observed only. 'after cool-off' is the state a transaction sees when the shutdown hook has not redeemed the vaults. "
          "V1 liquidation/auction begin-blockers are called directly (not wired in the app).",
     design_ref="4 C14",
@@ -30,7 +32,7 @@ def run(c):
     c.judge(dict(fails=[tuple(x) for x in res["fails"]]), logf)
     st = res["stats"]
     if not c.violations:   # a violation on real-code states stands on its own; vacuity only matters for a clean result
-        mx.need(st, ["ctlBreaker", "ctlShutdown", "ctlCoolOff", "ctlCoolWitness", "ctlPrice", "ctlRefOk", "ctlFreeOk", "hookBreaker", "hookPrice", "hookRefActs", "aucPrice", "aucRefMoved", "ctlNoSnapshot", "ctlPriceInactive", "ctlPriceMissing"])
+        mx.need(st, ["ctlBreaker", "ctlShutdown", "ctlCoolOff", "ctlCoolWitness", "ctlPrice", "ctlRefOk", "ctlFreeOk", "hookBreaker", "hookPrice", "hookRefActs", "aucPrice", "aucRefMoved", "ctlNoSnapshot", "ctlPriceInactive", "ctlPriceMissing", "hookPeerBusy", "ctlCrossPool"])
         mx.need_eq(st, [("ctlHandlersWitnessed", "ctlHandlers"), ("hooksWitnessed", "hooks"), ("aucStepsWitnessed", "aucSteps")])
     c.samples = mx.samples(logf, ("Ctl", "Hook", "Auc"))
     return c.finish("model_checking", dict(
